@@ -48,7 +48,8 @@ PropC01(e) == e.ev = "rt" =>
    /\ e.msg2.kind = "data"
    /\ e.msg2.s = e.msg.s /\ e.msg2.f = e.msg.f /\ e.msg2.w = e.msg.w
    /\ e.msg2.sid = e.msg.sid /\ e.msg2.sys = e.msg.sys
-   /\ ByteLevel(e.msg2.item) = ByteLevel(e.msg.item)           \* identical item tree
+   /\ ByteLevel(e.msg2.item) = ByteLevel(e.msg.item)           \* identical item tree: the same encoding of values that
+   /\ ValuesOK(e.msg.item) /\ ValuesOK(e.msg2.item)            \*   both lie in their format's domain (where the encoding is one-to-one)
    /\ e.same2 /\ e.psame2                                     \* encoding again gives the same bytes
    /\ ("rok" \in DOMAIN e) => (e.rok /\ e.rsame)             \* ... also when the frame arrived in a receive buffer that is used again and again
 
